@@ -565,9 +565,15 @@ pub fn run(tier: Tier) -> i32 {
         ("(a+b+c+d+f+g+h+i+s)*(j+k+l+m+n+o+p+q+r+s)", 18, true),
         ("a+b*c+d+f*g+h+i+j*k+l+m+n*o+p+q+r*a+s+t", 19, true),
         ("s*a*s+b+c+d+f+g+h+i+j+k+l+m+n+o+p+(q-r*s)", 18, true),
+        // names whose byte order differs from their alphabetical order (upper before lower case,
+        // digits, underscore, Greek)
+        ("V/a", 2, true),
+        ("a*B+c*Z", 4, true),
+        ("_x*X1+x10*x9/{ a}", 5, true),
+        ("β*sin(B)+Α/b", 4, false),
     ];
     let m = Bookkeeping { texts: Arc::new(many), max_len: if tier.thorough() { 3 } else { 2 } };
-    explore(m, &mut rep, "c09", "4 base expressions with 18..19 variables x flat/deep");
+    explore(m, &mut rep, "c09", "4 base expressions with 18..19 variables and 4 with names whose byte order differs from the alphabetical one x flat/deep");
     // (a base expression with more than 256 variables was tried: differentiating a sum of 258
     // operands costs the library minutes per state - see finding R2 - so the byte boundary is covered
     // by the out-of-range aliases 256 + i and 65536 + i of the valid indices instead)
